@@ -965,12 +965,9 @@ fn gen_obj(rng: &mut Rng, family: u64) -> Vec<String> {
             }
             let mut len = rng.range(0, 0x80);
             if family == 8 && rng.chance(1, 3) {
-                len = u64::MAX - initial.min(u64::MAX - 1) + rng.below(4); // initial + len >= 2^64
-                if !ops.contains(&"xwf-load".to_string()) {
-                    ops.push("xwf-load".to_string());
-                }
+                len = (u64::MAX - initial).saturating_add(rng.range(1, 4)); // initial + len >= 2^64 (unless initial is tiny)
             }
-            if initial as u128 + len as u128 >= U64 && !ops.contains(&"xwf-load".to_string()) {
+            if initial as u128 + len as u128 >= U64 && family != 8 {
                 continue;
             }
             ops.push(format!("fde {initial} {len}"));
